@@ -405,7 +405,7 @@ func stubRegexpFindStringSubmatch(s *State, a []Value) Value {
 	re := hostRegexp(s, a[0])
 	str, ok := s.concreteStr(a[1])
 	if !ok {
-		s.abort("FindStringSubmatch on symbolic string")
+		return s.symFindSubmatch(re, a[1].(*SymStr))
 	}
 	m := re.FindStringSubmatch(str)
 	if m == nil {
@@ -816,3 +816,5 @@ func (s *State) regexAxioms(name string, re *regexp.Regexp) {
 		}
 	}
 }
+
+func jsonUnmarshalHost(text string, out *string) error { return json.Unmarshal([]byte(text), out) }
